@@ -185,14 +185,30 @@ def _run(prop, tier, test, seed, nshards, binary, outdir, t0):
         if st is None or not st.get("complete"):
             # the worker died or hung: attribute through the journal
             jp = os.path.join(outdir, "journal.%d.json" % i)
-            tail = ""
+            tail, fatal = "", ""
             try:
                 with open(os.path.join(outdir, "log.%d.txt" % i)) as f:
-                    tail = f.read()[-3000:]
+                    whole = f.read()
+                tail = whole[-3000:]
+                k = whole.find("fatal error: concurrent map")
+                if k >= 0:
+                    fatal = whole[k:k + 2500]
             except OSError:
                 pass
             if st is not None and st.get("hung"):
                 problems.append("shard %d: a case exceeded the hang budget: %s" % (i, st["hung"][:500]))
+            elif fatal and PROPS[prop][3] and os.path.exists(jp) and "/repo/" in fatal:
+                # the Go runtime itself caught two goroutines in one map inside the library: that is a data
+                # race whether or not the schedule repeats when the case is run again
+                with open(jp) as f:
+                    jcase = f.read()
+                try:
+                    cj = json.loads(jcase)
+                except ValueError:
+                    cj = {"raw": jcase}
+                violations.append({"property": prop, "check": cj.get("check", "journal"), "sig": "fatal:concurrent-map-access",
+                                   "message": "the Go runtime stopped the worker during this case: " + fatal,
+                                   "case": cj.get("case", cj)})
             elif os.path.exists(jp):
                 with open(jp) as f:
                     jcase = f.read()
